@@ -464,7 +464,7 @@ func (s *pstate) term(v ssa.Value) string {
 		}
 		return "param:" + x.Name()
 	case *ssa.FreeVar:
-		return "free:" + x.Name()
+		return "&free:" + x.Name()
 	case *ssa.Global:
 		if x.Pkg != nil {
 			return "&" + strings.ReplaceAll(x.Pkg.Pkg.Path(), Mod+"/", "") + "." + x.Name()
